@@ -178,4 +178,68 @@ theorem code_direction_descent (G : Fin n → K) (θ : K) (hθ : θ ≠ 0) (W : 
 
 end selection
 
+/-! ### the masked form the code actually computes
+
+The source does not build a reduced system: it zeroes the rows of `W` and the entries of `r` that
+belong to active variables (`Z` is the mask) and works in full dimension. -/
+section masked
+open Matrix
+variable {k : Nat}
+
+/-- `W` with the rows of the active variables zeroed -/
+def maskRows (mask : Fin n → Bool) (W : Matrix (Fin n) (Fin k) K) : Matrix (Fin n) (Fin k) K :=
+  Matrix.of fun r j => if mask r then W r j else 0
+
+/-- a vector with the entries of the active variables zeroed -/
+def maskVec (mask : Fin n → Bool) (a : Fin n → K) : Fin n → K := fun r => if mask r then a r else 0
+
+theorem maskRows_mulVec (mask : Fin n → Bool) (W : Matrix (Fin n) (Fin k) K) (v : Fin k → K) (r : Fin n) :
+    (maskRows mask W *ᵥ v) r = if mask r then (W *ᵥ v) r else 0 := by
+  simp only [mulVec, dotProduct, maskRows, of_apply]
+  split
+  · rfl
+  · simp
+
+theorem maskRows_transpose_mulVec (mask : Fin n → Bool) (W : Matrix (Fin n) (Fin k) K) (u : Fin n → K)
+    (hu : ∀ r, mask r = false → u r = 0) : (maskRows mask W)ᵀ *ᵥ u = Wᵀ *ᵥ u := by
+  funext j
+  simp only [mulVec, dotProduct, transpose_apply, maskRows, of_apply]
+  apply Finset.sum_congr rfl
+  intro r _
+  cases hm : mask r with
+  | true => simp
+  | false => rw [hu r hm]; simp
+
+/-- **C09 (masked Sherman–Morrison–Woodbury)** the direction the code computes in full dimension,
+`u = −θ⁻¹(r̂ + θ⁻¹ Ŵ v)` with `(M⁻¹ − θ⁻¹ ŴᵀŴ) v = Ŵᵀ r̂`, `Ŵ`, `r̂` the masked `W`, `r`: it vanishes on the
+active variables and satisfies `(B u)_i = −r_i` on the free ones, `B = θI − W M Wᵀ`. -/
+theorem masked_smw (θ : K) (hθ : θ ≠ 0) (W : Matrix (Fin n) (Fin k) K) (M Minv : Matrix (Fin k) (Fin k) K)
+    (hM : M * Minv = 1) (mask : Fin n → Bool) (rr : Fin n → K) (v : Fin k → K)
+    (hK : (Minv - (1 / θ) • ((maskRows mask W)ᵀ * maskRows mask W)) *ᵥ v = (maskRows mask W)ᵀ *ᵥ maskVec mask rr) :
+    let u := -(1 / θ) • (maskVec mask rr + (1 / θ) • (maskRows mask W *ᵥ v))
+    (∀ r, mask r = false → u r = 0) ∧ (∀ r, mask r = true → (bmat θ W M *ᵥ u) r = -(rr r)) := by
+  intro u
+  have hzero : ∀ r, mask r = false → u r = 0 := by
+    intro r hr
+    simp only [u, Pi.smul_apply, Pi.add_apply, smul_eq_mul, maskVec, maskRows_mulVec, hr]
+    simp
+  refine ⟨hzero, ?_⟩
+  intro r hr
+  have hsmw := smw_direction (maskRows mask W) M Minv hM θ hθ (maskVec mask rr) v hK
+  have h1 := congrFun hsmw r
+  have e : ((θ • (1 : Matrix (Fin n) (Fin n) K) - maskRows mask W * M * (maskRows mask W)ᵀ) *ᵥ u) r =
+      (bmat θ W M *ᵥ u) r := by
+    rw [bmat_row]
+    rw [sub_mulVec, smul_mulVec, one_mulVec, ← mulVec_mulVec, ← mulVec_mulVec,
+      maskRows_transpose_mulVec mask W u hzero]
+    simp only [Pi.sub_apply, Pi.smul_apply, smul_eq_mul, maskRows_mulVec, hr, if_true]
+    rfl
+  rw [← e]
+  show ((θ • (1 : Matrix (Fin n) (Fin n) K) - maskRows mask W * M * (maskRows mask W)ᵀ) *ᵥ u) r = -(rr r)
+  have : (-(maskVec mask rr)) r = -(rr r) := by simp [maskVec, hr]
+  rw [← this]
+  exact h1
+
+end masked
+
 end Lbfgsb.C09
